@@ -14,7 +14,8 @@ META = {
     "text": "TLC enumerates every bookmark forest within the bounds of Bookmarks.tla (all shapes up to the node/depth bound x attribute "
             "classes) with the model's Export/Import results; each is replayed through the real import and export and compared "
             "(tree written by import, exported tree, re-import into a document with other bookmarks, second export identical). "
-            "TLC enumerates all outline pointer graphs of BookmarksRobust.tla (cycles, self references, shared items) and proves the "
+            "TLC enumerates all outline pointer graphs of BookmarksRobust.tla (cycles, self references, items shared by two sibling lists, "
+            "/Prev and /Next chains shaped as self loops, rings and rho) and proves the "
             "reader model terminates; each graph is fed to the real export/list calls in a child process under a CPU-time deadline.",
     "note": "Trusted: Bookmarks.tla (Clean/Ordered) as the meaning of export/import; the Go comparison and the outline projection; "
             "the importer's documented precondition (pages exist, sibling pages ascending) is part of the model; go1.26.8 toolchain.",
